@@ -111,6 +111,7 @@ package modbus
 //@   ensures[C08.timer] timers <= old(timers) + 1 && (timers > old(timers) ==> timerNs == int(c.readTimeout))
 //@   ensures[C07.timer,C08.timer] timers > old(timers) ==> timerWrites == old(writes) + 1
 //@   ensures[C08.fault] writeFaults > old(writeFaults) ==> err != nil && dyntype(err) == *ClientError && reads == old(reads)
+//@   ensures[C08.oversize] err == nil && reads > old(reads) ==> lastN < len(lastBuf)
 //@   fresh[C07] res
 //@   ensures[C07,C12,C19] err == nil ==> len(res) == streamPos - old(streamPos) && 1 <= len(res) && len(res) <= 260 && forall k in 0..len(res) :: res[k] == stream[old(streamPos) + k]
 //@   ensures[C07] err == nil ==> len(res) >= expectedLen || (errIs(lastErr, io.EOF) && faults > old(faults))
@@ -290,6 +291,7 @@ package modbus
 //@   ensures[C08.timer] timers <= old(timers) + 1 && (timers > old(timers) ==> timerNs == int(c.readTimeout))
 //@   ensures[C07.timer,C08.timer] timers > old(timers) ==> timerWrites == old(writes) + 1 && timerSleeps == old(sleeps) + 1
 //@   ensures[C08.fault] writeFaults > old(writeFaults) ==> err != nil && dyntype(err) == *ClientError && reads == old(reads)
+//@   ensures[C08.oversize] err == nil && reads > old(reads) ==> lastN < len(lastBuf)
 //@   fresh[C07] res
 //@   ensures[C07,C12,C19] err == nil ==> len(res) == streamPos - old(streamPos) && 1 <= len(res) && len(res) <= 256 && forall k in 0..len(res) :: res[k] == stream[old(streamPos) + k]
 //@   ensures[C07] err == nil ==> len(res) >= expectedLen
